@@ -25,7 +25,7 @@ Definition lay_chk (name : string) (expect : list (nat * nat)) (total : nat) : b
 """
 
 
-def classify(name, ps, pd, cs, cf, nm, cty, enums):
+def classify(name, ps, pd, cs, cf, nm, cty, enums, called=()):
     """descriptive class of a mismatch (python re-implementation, for the report only)"""
     if name in ps:
         cn = nm.get(name)
@@ -35,18 +35,31 @@ def classify(name, ps, pd, cs, cf, nm, cty, enums):
         if [a for a, _ in pf] != [a for a, _ in cfl]:
             return "field_names", "fields %s vs C %s %s" % ([a for a, _ in pf], cn, [a for a, _ in cfl])
         return "field_types", "field types differ from C struct %s" % cn
-    d = pd.get(name, {})
     if name not in cf:
-        return "missing_function", "lsci.%s is called/declared but the library has no such function" % name
+        return "missing_function", "lsci.%s is called/declared but the shared library exports no such function" % name
     cret, cargs = cf[name]
-    if d.get("args") is None:
-        return "undeclared_argtypes", "no argtypes for a C function with %d parameters" % len(cargs)
-    if len(d["args"]) != len(cargs):
-        return "arity", "argtypes lists %d parameters, C prototype has %d" % (len(d["args"]), len(cargs))
-    for i, (p, c) in enumerate(zip(d["args"], cargs)):
-        c2 = cty(c, enums)
-        if ("Int" in p) != ("Int" in c2) or (("Int" in p) and re.findall(r"Int (\d+)", p) != re.findall(r"Int (\d+)", c2)) or p.count("Ptr") != c2.count("Ptr"):
-            return "param_kind", "parameter %d declared %s, C has %s (%s)" % (i, p, c, c2)
+
+    def base(t):
+        return re.sub(r"\(Ptr |\)", "", t).strip()
+
+    def one(mod, d):
+        if d.get("args") is None:
+            return None if not cargs else ("undeclared_argtypes", "module %s calls it without argtypes (C function with %d parameters)" % (mod, len(cargs)))
+        if len(d["args"]) != len(cargs):
+            return "arity", "module %s: argtypes lists %d parameters, C prototype has %d" % (mod, len(d["args"]), len(cargs))
+        for i, (p, c) in enumerate(zip(d["args"], cargs)):
+            c2 = cty(c, enums)
+            if p.count("Ptr") != c2.count("Ptr") or (p.count("Ptr") == 0 and (("Int" in p) != ("Int" in c2) or re.findall(r"Int (\d+)", p) != re.findall(r"Int (\d+)", c2))):
+                return "param_kind", "module %s: parameter %d declared %s, C has %s (%s)" % (mod, i, p, c, c2)
+            if p.count("Ptr") and not ("Named" in p or "Void" in p or "Named" in c2 or "Void" in c2) and re.findall(r"Int \d+|Double|Float|Char", base(p)) != re.findall(r"Int \d+|Double|Float|Char", base(c2)):
+                return "pointee_kind", "module %s: parameter %d declared %s, the C parameter %s points to %s" % (mod, i, p, c, c2)
+        return None
+    mods = sorted({k[0] for k in pd if k[1] == name} | {k[0] for k in called if k[1] == name})
+    for mod in mods:
+        r_ = one(mod, pd.get((mod, name), {}))
+        if r_:
+            return r_
+    d = next((pd[k] for k in pd if k[1] == name), {})
     return "return_kind", "restype %s vs C return %s" % (d.get("ret", "default c_int"), cret)
 
 
@@ -66,8 +79,8 @@ def run(ck, rng, tier):
     # every declaration is one "program"
     for n in sorted(ps):
         ck.case(("struct", n, repr(ps[n][1])), sample={"python_struct": n, "fields": ps[n][1], "c": nm.get(n)} if n in ("PCAMODEL",) else None)
-    for n in sorted(set(pd) | called):
-        ck.case(("fun", n, repr(pd.get(n))), nontrivial=bool(pd.get(n, {}).get("args")), sample={"function": n, "decl": pd.get(n), "c": cf.get(n)} if n in ("PCA", "NewMatrix") else None)
+    for n in sorted(set(pd) | called):     # n = (module, function): every module declares for its own library handle
+        ck.case(("fun", n, repr(pd.get(n))), nontrivial=bool(pd.get(n, {}).get("args")), sample={"module": n[0], "function": n[1], "decl": pd.get(n), "c": cf.get(n[1])} if n[1] in ("PCA", "NewMatrix") else None)
     # --- the decision, evaluated by the kernel
     d = os.path.join(vf.COQ, "cases")
     os.makedirs(d, exist_ok=True)
@@ -83,9 +96,9 @@ def run(ck, rng, tier):
         ck.cov["abi_ok"] = okv
         ck.cov["abi_mismatches"] = mism
         for n in mism:
-            cls, what = classify(n, ps, pd, cs, cf, nm, t_abi.cty, enums)
+            cls, what = classify(n, ps, pd, cs, cf, nm, t_abi.cty, enums, called)
             ck.fail(n, cls, "binding declaration of %s disagrees with the C side: %s" % (n, what),
-                    {"name": n, "python": ps.get(n, pd.get(n)), "c": (nm.get(n), cs.get(nm.get(n))) if n in ps else cf.get(n)})
+                    {"name": n, "python": ps.get(n) or {k[0]: v for k, v in pd.items() if k[1] == n}, "c": (nm.get(n), cs.get(nm.get(n))) if n in ps else cf.get(n)})
     # --- validate the layout function (and T-abi's struct tables) against the compiler
     prog = ['#include <stdio.h>', '#include <stddef.h>']
     hdrs = sorted(os.path.basename(h) for h in __import__("glob").glob(os.path.join(vf.SRC, "*.h")) if os.path.basename(h) != "scientific.h")
